@@ -18,7 +18,7 @@ func init() {
 		ID:    "C04",
 		Title: "A size survives every marshal form and configuration",
 		Run:   runC04,
-		Explanation: "Writer/reader agreement over constants, each a necessary condition of the round trip. C04.forms: MarshalJSON as a decision table over the two package switches emits object / quoted text / bare number; the object is {\"<ObjectKeyValue>\":<Shorten value>,\"<ObjectKeyUnit>\":\"<Shorten unit>\"}; MarshalText selects bare bytes or Formatter(nil, s, 0) by DisableMarshalTextUnit; DefaultRule's initialiser enables the object and string forms; UnmarshalText masks the rule to RuleDisableUnit, UnmarshalJSON passes DefaultRule; the exported MarshalText is marshalText with its error wrapped; the string form quotes exactly marshalText's bytes (C04.quote text). C04.reader: the reader's side of the three JSON forms (rules of C12.gate, C08.object, C12.whole filed here as necessary conditions of the round trip). " +
+		Explanation: "Writer/reader agreement over constants, each a necessary condition of the round trip. C04.forms: MarshalJSON as a decision table over the two package switches emits object / quoted text / bare number; the object is {\"<ObjectKeyValue>\":<Shorten value>,\"<ObjectKeyUnit>\":\"<Shorten unit>\"}; MarshalText selects bare bytes or Formatter(nil, s, 0) by DisableMarshalTextUnit; DefaultRule's initialiser enables the object and string forms; UnmarshalText masks the rule to RuleDisableUnit, UnmarshalJSON passes DefaultRule; the exported MarshalText is marshalText with its error wrapped; the string form quotes exactly marshalText's bytes (C04.quote text). C04.reader: the reader's side of the three JSON forms (rules of C12.gate, C08.object, C12.whole and C12.count filed here as necessary conditions of the round trip: the writer's two-member object is not refused by a member limit of two or more, and an ignored member is skipped completely). " +
 			"C04.exact: the reading side is exact near 2^64 — newSize as a decision table with the product checked through the high word of bits.Mul64 (C08's rules under this property), and the text path reads its digits with strconv.ParseUint(·, 10, 64) on every target (C08.text). C04.quote: the string form is exactly '\"' + text + '\"' (the shift-by-one copy idiom is checked piece by piece). " +
 			"C04.vocab: Shorten evaluated abstractly (as C13.shorten) returns (s >> 10k, k-th binary unit) and unitToValues maps that unit to 2^(10k), so value × multiplier rebuilds what Shorten split. " +
 			"C04.keys: the reader switches on the marshal key constants after strings.ToLower, and the constants are lower-case. " +
@@ -82,7 +82,12 @@ func runC04(e *Env) {
 	if dp := e.Fn("C04.reader", "size", "DefaultParser"); dp != nil {
 		e.FlowAs(map[string]string{"C12.whole": "C04.reader"}, func(c *flow.Ctx) { c.RuleWholeInput(dp, 0) })
 	}
-	e.S.Floor("C04.reader", 17)
+	// the writer's object has exactly two members: a member limit of two or more must not refuse it, i.e. the limit
+	// comparison counts the members read and nothing more (C12.count)
+	if ujo := e.Fn("C04.reader", "size", "unmarshalJSONObject"); ujo != nil {
+		e.FlowAs(map[string]string{"C12.count": "C04.reader"}, func(c *flow.Ctx) { c.RuleCounterSlack(ujo, "MaxObjectKeys") })
+	}
+	e.S.Floor("C04.reader", 19)
 }
 
 // segs flattens an abstract byte-sequence value built by append / strconv.AppendUint into readable segments.
